@@ -173,11 +173,16 @@ class SSHConfig:
             else:
                 path = self._default_path
 
-            match_hidden = Path(pattern).name.startswith('.')
+            # A leading dot in a file or directory name is only
+            # matched by a pattern component which begins with one
+
+            pattern_parts = Path(pattern).parts
 
             paths = sorted(p for p in path.glob(pattern)
                            if p.is_file() and
-                           (match_hidden or not p.name.startswith('.')))
+                           all(pat.startswith('.') or
+                               not part.startswith('.') for part, pat in
+                               zip(p.relative_to(path).parts, pattern_parts)))
 
             if not paths:
                 logger.debug1(f'Config pattern "{pattern}" matched no files')
